@@ -67,9 +67,11 @@ func processHints(query sql.ISelect, hints *storage.SelectHints) sql.ISelect {
 			sql.NewOrderBy(sql.NewRawObject("timestamp_ms"), sql.ORDER_BY_DIRECTION_ASC),
 		)
 	}
-	if rangeVectors[hints.Func] && hints.Step > hints.Range {
+	if rangeVectors[hints.Func] && hints.Range > 0 && hints.Step > hints.Range {
 		// hints.Start is the first evaluation time minus the range: the engine reads the windows
 		// [Start + i*Step, Start + i*Step + Range], whatever Start is modulo Step.
+		// (Range == 0: an instant selector under a sub-query of the function, read with the lookback at the steps
+		// of the sub-query - there are no such windows)
 		msInStep := sql.NewRawObject(fmt.Sprintf("(timestamp_ms - %d) %% %d", hints.Start, hints.Step))
 		query.AndWhere(sql.Le(msInStep, sql.NewIntVal(hints.Range)))
 	}
